@@ -26,6 +26,12 @@ def wh_saves(A):
 
 
 def run(W, chk):
+    from rules.common import independent_of, zero_test
+    independent_of(chk, W, "NONDEP-weights-vs-penalty", FM, ("ManagePosition", ".action", "Withdraw"), "emergency exit", "a penalty amount is zero",
+                   zero_test(lambda v: any(o == "Store(CONFIG).emergency_unlock_penalty" for o in all_origins(v))),
+                   lambda A: [e for e in A.writes() if e.extra.get("item") == "LP_WEIGHT_HISTORY" and e.extra.get("sop") == "save"],
+                   "the weight of an emergency-withdrawn open position is removed whether or not any penalty amount is zero",
+                   "the weight update of an emergency withdrawal depends on a penalty amount being (non-)zero: a penalty-free exit leaves the weight behind")
     from rules.common import borrow
     borrow(W, chk, "C06", {"DEP-carried-snapshot"}, "a weight change takes effect from the epoch after the operation, also across Claim{until_epoch}")
     spec = {
